@@ -81,7 +81,8 @@ func errorChecksMeanWhatTheySay(r *Report, p *Program, rule string) {
 						isMod = true
 					}
 				}
-				examineScope := isMod || isSink || strings.Contains(k, "dynamic.ResourceInterface.") || strings.HasSuffix(k, "hooks.Hook.Call")
+				examineScope := isMod || isSink || strings.Contains(k, "dynamic.ResourceInterface.") || strings.HasSuffix(k, "hooks.Hook.Call") ||
+					strings.Contains(k, "dynamiclister.") || strings.Contains(k, "/lister/") || strings.Contains(k, "unstructured.Nested")
 				ev := engine.ErrValue(call)
 				key := Short(FK(f)) + "→" + Short(k)
 				c := sf("%s#%d", key, ord[key])
@@ -114,14 +115,23 @@ func errorChecksMeanWhatTheySay(r *Report, p *Program, rule string) {
 				}
 				// (b) examined: nil-tested, returned, appended, stored, passed on
 				examined := false
-				if refs := ev.Referrers(); refs != nil {
-					for _, u := range *refs {
-						switch u.(type) {
-						case *ssa.BinOp, *ssa.Return, *ssa.Store, *ssa.Phi, *ssa.MakeInterface, *ssa.Call, *ssa.ChangeInterface, *ssa.TypeAssert:
+				seenPhi := map[ssa.Value]bool{}
+				var look func(v ssa.Value)
+				look = func(v ssa.Value) {
+					if seenPhi[v] || v.Referrers() == nil {
+						return
+					}
+					seenPhi[v] = true
+					for _, u := range *v.Referrers() {
+						switch x := u.(type) {
+						case *ssa.BinOp, *ssa.Return, *ssa.Store, *ssa.MakeInterface, *ssa.Call, *ssa.ChangeInterface, *ssa.TypeAssert, *ssa.Defer, *ssa.Go, *ssa.MapUpdate, *ssa.Send:
 							examined = true
+						case *ssa.Phi:
+							look(x) // merged with the other arms' errors: is the merged variable looked at?
 						}
 					}
 				}
+				look(ev)
 				if !examined && !examineScope {
 					continue
 				}
@@ -143,7 +153,7 @@ func errorChecksMeanWhatTheySay(r *Report, p *Program, rule string) {
 				for _, bb := range f.Blocks {
 					for i := range bb.Succs {
 						if l, ok := engine.EdgeLit(bb, i); ok {
-							if x, isNil, isT := l.NilTest(); isT && isNil && engine.SameValue(x, ev) {
+							if x, isNil, isT := l.NilTest(); isT && isNil && sameOrPhiOf(x, ev) {
 								from = append(from, engine.Point{B: bb.Succs[i]})
 							}
 						}
@@ -189,7 +199,7 @@ func errorChecksMeanWhatTheySay(r *Report, p *Program, rule string) {
 					for _, bb := range f.Blocks {
 						for i := range bb.Succs {
 							if l, isL := engine.EdgeLit(bb, i); isL {
-								if x, isNil, isT := l.NilTest(); isT && !isNil && engine.SameValue(x, ev) {
+								if x, isNil, isT := l.NilTest(); isT && !isNil && sameOrPhiOf(x, ev) {
 									fail = append(fail, engine.Point{B: bb.Succs[i]})
 								}
 							}
@@ -273,6 +283,9 @@ func nilKnownNotDereferenced(r *Report, p *Program, rule string) {
 							// reachable from here without passing the definition of its other operands
 							cands = append(cands, ph)
 							for _, e := range ph.Edges {
+								if _, isPhi2 := e.(*ssa.Phi); isPhi2 {
+									continue
+								}
 								if ei, isI := e.(ssa.Instruction); isI && e != v {
 									fresh = append(fresh, ei)
 								}
@@ -610,4 +623,20 @@ func unwrapIface(v ssa.Value) ssa.Value {
 		}
 	}
 	return v
+}
+
+// sameOrPhiOf: x is ev, or the variable ev was assigned to on one of several arms (`a, err = f()` in
+// both arms of an if, tested once after them).
+func sameOrPhiOf(x, ev ssa.Value) bool {
+	if engine.SameValue(x, ev) {
+		return true
+	}
+	if ph, ok := engine.ResolveLocal(x).(*ssa.Phi); ok {
+		for _, e := range ph.Edges {
+			if engine.SameValue(e, ev) {
+				return true
+			}
+		}
+	}
+	return false
 }
